@@ -59,6 +59,35 @@ def probOkB (p : List α) (u : α) : Bool :=
 
 end choice
 
+section noReplace
+variable {α : Type} [Add α] [Div α] [LT α] [DecidableLT α] [OfNat α 0]
+
+/-- `p[found] = 0` -/
+def zeroAt (found : List Nat) (p : List α) : List α :=
+  p.zipIdx.map (fun xi => if found.contains xi.2 then 0 else xi.1)
+
+/-- `np.unique(new, return_index=True)` followed by sorting the first-occurrence indices: the entries of `new` not
+seen before, first occurrences, in order of appearance -/
+def keepFresh : List Nat → List Nat → List Nat
+  | _, [] => []
+  | seen, x :: xs => if seen.contains x then keepFresh seen xs else x :: keepFresh (x :: seen) xs
+
+/-- numpy's `RandomState.choice(n, size, replace=False, p=p)`: rounds of `size - #found` uniform draws; every round
+zeroes the weights of the positions found so far, maps its draws through the normalised cumulative sums and keeps the
+new distinct positions.  `uss` are the uniform draws of the successive rounds; `none` = ran out of rounds. -/
+def choiceNR (p : List α) (size : Nat) : List (List α) → List Nat → Option (List Nat)
+  | [], found => if size ≤ found.length then some found else none
+  | us :: rest, found =>
+    if size ≤ found.length then some found
+    else choiceNR p size rest
+      (found ++ keepFresh [] ((us.take (size - found.length)).map (choiceIdx (zeroAt found p))))
+
+/-- positions of positive weight -/
+def posIdx (p : List α) : List Nat :=
+  (List.range p.length).filter (fun i => match p[i]? with | some x => decide (0 < x) | none => false)
+
+end noReplace
+
 section shrink
 
 /-- The shrinking-list loop: `remaining` are the not yet selected candidates (in the loop's order), `pos` the
